@@ -32,6 +32,7 @@ func runC01(c *Check) {
 	c04Resend(c, P, g)
 	c05OneInFlight(c, P, g)
 	c04PublishCopies(c, P, g)
+	c04NoSharedWrites(c, P+".O4", g)
 	// O5 NO-INVENTION: provenance of every message handed to the deliver function
 	var fanMsg *ssa.Parameter
 	if ps := ParamsOfType(g.Fan, tMessagePtr); len(ps) == 1 {
